@@ -130,6 +130,21 @@ CHECKS = {
         technique=TECH + 'histories of elaboration sessions sharing process-global state, with '
                   'elab_exception / rejected-statement faults; per-cycle tree-interpreter oracle',
         design='5 C07'),
+    'C08': dict(
+        level='exploration',
+        text='Seeded histories of per-cycle port operations (biased to read-during-write, '
+             'write-after-write, disabled writes, never-written addresses) on one memory '
+             'configuration per run, executed by up to five replicas (Simulation, FastSimulation, '
+             'CompiledSimulation, Simulation of synthesize+optimize, exported Verilog under VSim) '
+             'in a scheduler-chosen interleaving, against a dict model; storage pokes through the '
+             'aliasing inspect_mem dict and rejected steps are injected. A fixed covering walk '
+             'drives all 4 x 16 (content, operation) pairs of the 2-word x 1-bit memory. Sampling '
+             'otherwise.',
+        note='Trusted: the dict model, VSim (verifsim/vsim.py) for the Verilog replica. Known '
+             'finding: CompiledSimulation with addrwidth > 64.',
+        technique=TECH + 'operation histories on replicated memories under seeded interleaving, '
+                  'storage_poke / reject_step faults, array-model oracle',
+        design='5 C08'),
 }
 
 NOT_APPLICABLE = {
